@@ -157,12 +157,22 @@ def _single_mode(ck, D, N):
 
 def _channels(ck):
     D, N = 2, 4
-    ins = [In("u", (2,) + (N,) * D)]
-    enc = Encoded(lambda u: (ex.get_spectrum(u), ex.get_spectrum(u[0:1]), ex.get_spectrum(u[1:2])), ins, tag="ch")
-    facts = enc.interp.sound_facts()
-    for b in range(N // 2 + 1):
-        ck.add(f"channels/ch0/bin{b}", sym.equal_goal(enc.outs[0][0, b], enc.outs[1][0, b]), facts, family="channels are treated independently")
-        ck.add(f"channels/ch1/bin{b}", sym.equal_goal(enc.outs[0][1, b], enc.outs[2][0, b]), facts, family="channels are treated independently")
+    for binning in ("sum", "average"):
+        ins = [In("u", (2,) + (N,) * D)]
+        gs = lambda x, binning=binning: ex.get_spectrum(x, radial_binning=binning)
+        enc = Encoded(lambda u, gs=gs: (gs(u), gs(u[0:1]), gs(u[1:2])), ins, tag="ch" + binning[0])
+        facts = enc.interp.sound_facts()
+
+        def replay(model, gs=gs):
+            rng = np.random.default_rng(2)
+            u = jnp.asarray(rng.normal(size=(2,) + (N,) * D))
+            a, b0, b1 = gs(u), gs(u[0:1]), gs(u[1:2])
+            e = float(jnp.max(jnp.abs(a - jnp.concatenate([b0, b1]))))
+            return {"reproduced": e > 1e-9, "detail": f"get_spectrum(radial_binning={binning!r}) of a 2-channel state vs the channels one at a time: max deviation {e:.3g}"}
+
+        for b in range(N // 2 + 1):
+            ck.add(f"channels/{binning}/ch0/bin{b}", sym.equal_goal(enc.outs[0][0, b], enc.outs[1][0, b]), facts, family="channels are treated independently", replay=replay)
+            ck.add(f"channels/{binning}/ch1/bin{b}", sym.equal_goal(enc.outs[0][1, b], enc.outs[2][0, b]), facts, family="channels are treated independently", replay=replay)
 
 
 def _bin_edge_replay(vals, meta):
